@@ -39,6 +39,7 @@ def mutants(prog):
         ("resample: internal float size instead of the extent", G, "Grid.resample", "size = self.extent().div(spacing)", "size = self._size.mul(self.spacing()).div(spacing)", "after downsample"),
         ("Cube.grid: cells counted as for corner alignment", "deepali.core.cube", "Cube.grid", "if align_corners:\n        ncells = ncells.sub_(1)", "ncells = ncells.sub_(1)", "T9.cube-grid"),
         ("Cube.grid: spacing form forgets the extra sample", "deepali.core.cube", "Cube.grid", "if align_corners:\n            size = torch.Size((n + 1 for n in size))", "pass", "T9.cube-grid"),
+        ("roi: start clamped to the grid", G, "Grid.region_of_interest", "grid_size = self.size()", "grid_size = self.size()\n    start = start.clamp(min=0)", "op=region_of_interest"),
     ]
     for name, mod, fn, old, new, expect in specs:
         ov = source_sub(prog, mod, fn, old, new)
